@@ -22,7 +22,7 @@ theorem C04_exit' {w : World} {picks : List Nat} {r : Result}
 
 end Engine
 
-open BuildTop
+open Engine BuildTop
 
 theorem handles_exception (names : List String) (c : String) (h : names.contains "Exception" = true) :
     handles names (.exn c) = true := by
@@ -41,5 +41,23 @@ theorem ladderFind_exn (c : String) : ∃ code, ladderFind Generated.buildLadder
   by_cases h3 : c = "ExecutionError"
   · subst h3; decide
   · simp [h1, h2, h3]
+
+theorem importExc_user {e : Exc} (h : (∃ c, e = .exn c) ∨ e = .base "SystemExit") :
+    importExc e = .exn Generated.collectLogRaises := by
+  rcases h with ⟨c, rfl⟩ | rfl
+  · unfold importExc
+    rw [handles_exception _ c (by decide)]; rfl
+  · decide
+
+/-- Exit code that the ladder of `build()` assigns to an exception class. -/
+def classCode (e : Exc) : Nat :=
+  match ladderFind Generated.buildLadder e with
+  | some c => exitCode c
+  | none => 0
+
+theorem classCode_exn (c : String) : ∃ code, ladderFind Generated.buildLadder (.exn c) = some code ∧
+    classCode (.exn c) = exitCode code := by
+  obtain ⟨code, h, _⟩ := ladderFind_exn c
+  exact ⟨code, h, by simp [classCode, h]⟩
 
 end Pytask
